@@ -608,3 +608,55 @@ def variant_str_table(prog, fn, adt_pat):
                     break
         out[v['n']] = val
     return out
+
+
+def variants_reaching(fn, adt_pat, target_bb):
+    """Set of variant indexes of the (first) match on an `adt_pat` value in fn for which block target_bb can be reached, following
+    the constant flags a `matches!(x, A | B)` arm sets (flag = true / false) through the later switch on that flag."""
+    sws = enum_switches(fn, adt_pat)
+    if not sws:
+        raise AnchorMissing('match on %s in %s' % (adt_pat, fn.path))
+    sw = sws[0]
+    out = set()
+    nvar = max(list(sw['arms'].keys()) + [0]) + 1
+    return_all = lambda: None
+    def reach_from(start):
+        env = {}
+        seen = set()
+        stack = [(start, ())]
+        visited = set()
+        while stack:
+            bb, envt = stack.pop()
+            env = dict(envt)
+            if (bb, envt) in seen:
+                continue
+            seen.add((bb, envt))
+            visited.add(bb)
+            blk = fn.blocks[bb]
+            for s in blk['s']:
+                if 'lhs' in s and is_bare(s['lhs']) and s['rv']['k'] == 'use' and s['rv']['a'].get('c') == 'bool' and const_int(s['rv']['a']) in (0, 1):
+                    env[s['lhs']['l']] = const_int(s['rv']['a'])
+            t = blk['t']
+            nxt = []
+            if t['k'] == 'switch':
+                p = op_place(t['d'])
+                if p is not None and is_bare(p) and p['l'] in env and t.get('ty') == 'bool':
+                    v = env[p['l']]
+                    tg = None
+                    for val, b2 in t['ts']:
+                        if int(val) == v:
+                            tg = b2
+                    nxt = [tg if tg is not None else t['else']]
+                else:
+                    nxt = [b2 for _, b2 in t['ts']] + [t['else']]
+            elif t['k'] == 'goto':
+                nxt = [t['t']]
+            elif t['k'] == 'return':
+                nxt = []
+            else:
+                if isinstance(t.get('t'), int):
+                    nxt = [t['t']]
+            for n2 in nxt:
+                stack.append((n2, tuple(sorted(env.items()))))
+        return visited
+    return sw, {k for k in set(sw['arms'].keys()) | {'otherwise'} if target_bb in reach_from(sw['arms'][k] if k != 'otherwise' else sw['otherwise'])}
